@@ -39,7 +39,9 @@ CHECKS = {
                 technique='explicit-state BFS + deviation-bounded exploration with a wire-count monitor',
                 text='On every transition of the exploration (C01 alphabet plus short/long frames and REST send events) the '
                      'counters returned by GET /v1/peer/<ip>/statistic are compared with the messages the reference deframer '
-                     'finds in the transport write log and in the delivered stream; the deltas are part of the canonical key.',
+                     'finds in the transport write log and in the delivered stream; the deltas are part of the canonical key. Plus: every '
+                     'window of <= 3 (thorough 4) events between a REST send\'s answer and the run of its reactor.callFromThread call '
+                     '(vf/deferred.py), and every 1-preemption interleaving of a REST send in its worker thread with one reactor event (E5).',
                 ref='7 C18', note=E1_NOTE),
     'C02': dict(level='model_checking', engine='E1',
                 technique='explicit-state BFS over adversarial prefixes with a nested deterministic continuation from every state',
@@ -88,7 +90,10 @@ CHECKS = {
                      'session states is issued against a fresh replay of the state: without valid credentials 401, no state in the body, '
                      'empty observation and unchanged canonical key; sending endpoints outside Established report failure with no effect; '
                      'in Established every successful send (message pool, eBGP and iBGP, route-refresh x capability sets, bin_update) must '
-                     'put exactly one message on the tracked transport whose reference decoding equals the request (+LOCAL_PREF 100 iff iBGP).',
+                     'put exactly one message on the tracked transport whose reference decoding equals the request (+LOCAL_PREF 100 iff iBGP). '
+                     'Plus: every window of <= 3 (thorough 4) events between a send\'s answer and the run of its reactor.callFromThread call '
+                     '(the message reaches the connection it was accepted on exactly once, or is dropped with it), and every 1-preemption '
+                     'interleaving of two sends in two worker threads / of a send with one reactor event (E5, linearizability).',
                 ref='7 C16', note=E1_NOTE),
     'C19': dict(level='model_checking', engine='E1',
                 technique='explicit-state exploration of operation sequences on the real session objects against a dictionary reference model',
@@ -118,7 +123,9 @@ CHECKS = {
                 text='Starting from the octets of every extended-community kind the decoder names x field boundary values, every '
                      'community class (all well-known values) and large-community field boundaries: the agent\'s decoded text is '
                      'posted to POST /v1/peer/<ip>/json_to_bin in an Established session, the produced attribute must denote the same '
-                     'value under an independent reading and render the identical text again; all ordered pairs of kinds in one request.',
+                     'value under an independent reading and render the identical text again; all ordered pairs of kinds in one request; the '
+                     'same through POST send/update (bytes read from the wire); the comma-list spelling; two such requests in two worker '
+                     'threads under every schedule with one preemption (E5).',
                 ref='7 C17', note=E3_NOTE),
     'C10': dict(level='model_checking', engine='E1',
                 technique='exhaustive single-mutation hostile pool x session states delivered to the real session objects, differential against a pristine agent, with the C02 recovery continuation',
@@ -133,13 +140,15 @@ CHECKS = {
                 text='Every prefix length x address pool, short / long prefix lists, every attribute alone over its boundary pool (AS_PATH across '
                      'the 255-octet boundary in both AS widths), all 2^12 attribute subsets and all value pairs of attribute pairs, in 2- and '
                      '4-octet mode: Update.construct -> Update.parse must report no error and exactly the expected values; a constructor '
-                     'error is accepted only for inputs the reference\'s own range table rejects.',
+                     'error is accepted only for inputs the reference\'s own range table rejects. Plus: a message re-sent after an in-place edit '
+                     'of one of its lists must equal a fresh send; two encoders / an encoder and the decoder in two real threads under every '
+                     'schedule with one preemption (thorough: two) must each give their sequential result (E5).',
                 ref='7 C06', note=E3_NOTE),
     'C07': dict(level='exploration', engine='E3',
                 technique='small-scope exhaustive input-shape enumeration per address family: construct -> parse round trip against the reference\'s expected decoded form',
                 text='Per family (IPv6 unicast, IPv4/IPv6 labeled unicast, VPNv4/VPNv6, EVPN, IPv4 flowspec): every prefix length x address '
                      'pool, label / RD / ESI / MAC / IP / next-hop pools, flowspec components x operators x value widths, 1-3 routes, MP_REACH '
-                     'and MP_UNREACH; Update.construct -> Update.parse must return exactly the expected value.',
+                     'and MP_UNREACH; Update.construct -> Update.parse must return exactly the expected value. Plus the resend-after-in-place-edit cases and, per family, encoder x encoder / encoder x decoder in two real threads under every schedule with one preemption (E5).',
                 ref='7 C07', note=E3_NOTE),
     'C08': dict(level='exploration', engine='E3',
                 technique='small-scope exhaustive enumeration of constructor inputs with an independent structural walker over the produced bytes',
@@ -207,6 +216,8 @@ def main():
              'kind_free_text': 'small-scope exhaustive input-shape enumerator against a reference codec / structural walker'},
             {'name': 'E4', 'path': 'vf/props/c20.py', 'serves_properties': ['C20'],
              'kind_free_text': 'crash-point enumerator over an in-memory file system (every event history x restart after every event x every torn-tail offset)'},
+            {'name': 'E5', 'path': 'vf/threads.py', 'serves_properties': ['C06', 'C07', 'C16', 'C17', 'C18'],
+             'kind_free_text': 'preemption-bounded interleaving explorer for two real threads (sys.settrace line events + per-thread semaphore baton): every schedule with <= 1 preemption (thorough: 2) over pairs of encoder / decoder / REST-request / reactor-event bodies, against the bodies\' own sequential results'},
         ],
         'checks': checks,
         'not_applicable': [{'property_id': p, 'reason': NOT_YET} for p in props if p not in CHECKS],
